@@ -178,6 +178,11 @@ def gen_case(rng, cfg, nops):
         else:
             erase_iter(i)
 
+    def recreate(i):
+        # destroy variable i, re-create it empty with a comparator state (run-time direction) and an arena
+        d = rng.below(2)
+        ops.append("NC,%d,%d,%d" % (i, d, rng.below(3))); sh[i].l = []; sh[i].gt = d
+
     def bulk(i, n=None):
         if sh[i].l:
             ops.append("CL,%d" % i); sh[i].l = []
@@ -195,7 +200,7 @@ def gen_case(rng, cfg, nops):
             ks = sorted(rng.below(max(1, n // rng.choice([1, 2, leaf, 3 * leaf]) + 1)) for _ in range(n))
         else:
             ks = sorted(set(rng.below(3 * n + 3) for _ in range(n)))
-        if gt:
+        if sh[i].gt:
             ks.reverse()
         items = [(k, newd()) for k in ks]
         ops.append("B,%d,%d" % (i, len(items)) + "".join(",%d,%d" % x for x in items))
@@ -203,24 +208,34 @@ def gen_case(rng, cfg, nops):
 
     def whole(i):
         j = rng.below(3)
-        r = rng.below(10)
-        if r < 3:
-            ops.append("AS,%d,%d" % (i, j)); sh[i].l = list(sh[j].l)
-        elif r < 5:
-            if i != j:
-                ops.append("CC,%d,%d" % (i, j)); sh[i].l = list(sh[j].l)
-        elif r < 7:
-            ops.append("%s,%d,%d" % (rng.choice(["SW", "SWs"]), i, j)); sh[i].l, sh[j].l = sh[j].l, sh[i].l
+        r = rng.below(20)
+        if r < 6:
+            ops.append("AS,%d,%d" % (i, j)); sh[i].l = list(sh[j].l); sh[i].gt = sh[j].gt
         elif r < 9:
+            if i != j:
+                ops.append("CC,%d,%d" % (i, j)); sh[i].l = list(sh[j].l); sh[i].gt = sh[j].gt
+        elif r < 13:
+            # facade swap member, std::swap on the facades, BTree::swap on the underlying trees
+            ops.append("%s,%d,%d" % (rng.choice(["SW", "SWs", "SWt"]), i, j))
+            sh[i].l, sh[j].l = sh[j].l, sh[i].l; sh[i].gt, sh[j].gt = sh[j].gt, sh[i].gt
+        elif r < 16:
             ops.append("CMP,%d,%d" % (i, j))
-        elif rng.chance(1, 2):
+        elif r < 17:
             ops.append("CL,%d" % i); sh[i].l = []
-        else:   # destroy + one of the four range constructors (with/without comparator, allocator)
+        elif r < 18:
+            recreate(i)
+        else:   # destroy + one of the four range constructors (default comparator state; arena (v / 4) % 3)
             items = [(rng.below(univ), newd()) for _ in range(rng.below(2 * leaf + 3))]
-            ops.append("CR,%d,%d,%d" % (i, rng.below(4), len(items)) + "".join(",%d,%d" % x for x in items))
-            sh[i].l = []
+            ops.append("CR,%d,%d,%d" % (i, rng.below(12), len(items)) + "".join(",%d,%d" % x for x in items))
+            sh[i].l = []; sh[i].gt = gt
             for kk, dd in items:
                 sh[i].insert(kk, dd)
+
+    # half of the histories start with variables of different comparator states
+    if rng.chance(1, 2):
+        recreate(rng.below(3))
+        if rng.chance(1, 3):
+            recreate(rng.below(3))
 
     if mode == 4 or (mode == 5 and rng.chance(1, 2)):
         bulk(0)
@@ -498,6 +513,9 @@ def main(pid):
                     else:
                         if "VERIFYFAIL" in x:
                             first, what, violates = k, "BTree::verify() fails after the operation (%s)" % x[:120], True
+                            break
+                        if "LEDGERFAIL" in x:
+                            first, what, violates = k, "allocator / element-lifetime ledger error at this operation (%s)" % x[:120], True
                             break
                         if book_part(x) != book_part(y):
                             first, what = k, "allocation/stat bookkeeping differs from the proven model: impl=%s model=%s" % (book_part(x), book_part(y))
